@@ -580,3 +580,14 @@ package core
 //@   props C15
 //@   at Remove 1 assert [gc-worker-is-never-pruned] ssp.ServiceID != gcWorkerServiceSafePointID
 //@   modifies *
+
+// Storage.Flush: whenever a region store exists its pending batch is flushed - also while the "use region storage"
+// option is switched off (regions accepted while it was on may still sit in the batch).
+//@ func (*RegionStorage).FlushRegion
+//@   assumed
+//@   option event FlushRegion
+//@   modifies s.cacheSize, s.batchRegions
+//@ func (*Storage).Flush
+//@   props C17
+//@   ensures [pending-regions-are-written-whenever-a-region-store-exists] s.regionStorage != nil ==> count("FlushRegion") == old(count("FlushRegion")) + 1
+//@   modifies s.regionStorage.cacheSize, s.regionStorage.batchRegions
